@@ -58,7 +58,7 @@ with ThreadPoolExecutor(j) as ex:
             print("      " + d[:300])
         if "--file" in sys.argv and r["status"] in ("silent", "flagged"):
             src = [a for a in args if os.path.basename(a.rstrip("/")) == r["id"]][0]
-            dst = os.path.join(HERE, "neutral", r["id"])
+            dst = os.path.join(HERE, os.environ.get("NEUTRAL_DEST", "neutral"), r["id"])
             os.makedirs(dst, exist_ok=True)
             shutil.copy(os.path.join(src, "patch.diff"), os.path.join(dst, "patch.diff"))
             m = json.load(open(os.path.join(src, "meta.json")))
